@@ -21,10 +21,13 @@ pub type Mon = ChannelMonitor<TestChannelSigner>;
 
 /// Read a monitor image; returns the monitor and the number of bytes left unread.
 pub fn read_mon(bytes: &[u8], keys: &TestKeysInterface) -> Result<(Mon, usize), DecodeError> {
+	let t0 = std::time::Instant::now();
 	let mut r = bytes;
 	let (_, m) = <(BlockLocator, Mon)>::read(&mut r, (keys, keys))?;
+	T_READ.with(|t| { let mut t = t.borrow_mut(); t.0 += 1; t.1 += t0.elapsed().as_micros() as u64; t.2 += bytes.len() as u64; });
 	Ok((m, r.len()))
 }
+thread_local! { pub static T_READ: std::cell::RefCell<(u64,u64,u64)> = std::cell::RefCell::new((0,0,0)); }
 
 /// Byte histogram: two encodings of equal objects may order hash-map entries differently (LDK's maps are
 /// randomly keyed per instance) but must consist of the same bytes.
@@ -409,3 +412,266 @@ pub fn is_chain_tag(tag: &str) -> bool {
 
 #[allow(unused)]
 fn _unused(_: &WorldSpec) {}
+
+// -------------------------------------------------------------------------------------------------
+// (c) twin worlds: the externally observable surface of a world
+// -------------------------------------------------------------------------------------------------
+
+/// Multisets of rendered facts keyed by a class name; compared key by key between the twins.
+pub type Surface = BTreeMap<String, Vec<String>>;
+
+fn push(s: &mut Surface, k: String, v: String) {
+	s.entry(k).or_default().push(v);
+}
+
+/// Positions in `sim.log` / broadcast lists from which the "since the fork" facts are collected.
+#[derive(Clone, Debug, Default)]
+pub struct ForkMark {
+	pub log_pos: usize,
+	pub bc_pos: Vec<usize>,
+}
+
+pub fn fork_mark(sim: &Sim) -> ForkMark {
+	ForkMark { log_pos: sim.log.len(), bc_pos: sim.broadcasts.iter().map(|b| b.len()).collect() }
+}
+
+/// The public surface of every node. Keys ending in
+/// * `.channels`, `.payments`, `.balances`, `.htlc-msgs` are *state / strict* classes: equal multisets;
+/// * `.events` (since the fork) are compared as multisets, except that the reloaded world may emit again an
+///   event that was already emitted before the fork (`.events-before`): LDK documents that events may be
+///   replayed after a restart and that handling must be idempotent;
+/// * `.bump-events` and `.broadcasts` (since the fork) are compared as sets, and an element present in only
+///   one world is accepted if it already occurred before the fork (`-before`): `BumpTransaction` events are
+///   not persisted but regenerated as needed, and re-broadcasting a transaction is idempotent.
+pub fn surface(sim: &Sim, mark: &ForkMark) -> Surface {
+	let mut s = Surface::new();
+	for i in 0..sim.w.n {
+		let nd = &sim.w.nodes[i];
+		for mut d in nd.node.list_channels() {
+			// every field of ChannelDetails is compared as is (both worlds are quiescent and reconnected)
+			d.pending_inbound_htlcs.sort_by_key(|h| h.htlc_id);
+			d.pending_outbound_htlcs.sort_by_key(|h| (h.htlc_id, h.payment_hash.0));
+			push(&mut s, format!("n{}.channels", i), format!("{:?}", d));
+		}
+		for p in nd.node.list_recent_payments() {
+			push(&mut s, format!("n{}.payments", i), format!("{:?}", p));
+		}
+		for b in nd.chain_monitor.chain_monitor.get_claimable_balances(&[]) {
+			push(&mut s, format!("n{}.balances", i), format!("{:?}", b));
+		}
+		let wallet_spk = lightning::util::wallet_utils::WalletSourceSync::get_change_script(&*nd.wallet_source).ok();
+		for (k, tx) in sim.broadcasts[i].iter().enumerate() {
+			// A transaction is identified by the non-wallet outputs it spends: which wallet UTXO a fee-bumping
+			// child uses depends on the order in which the (unordered) bump events were handled.
+			let mut ins: Vec<String> = vec![];
+			for inp in tx.input.iter() {
+				let prev_spk = sim.chain.seen.get(&inp.previous_output.txid).and_then(|t| t.output.get(inp.previous_output.vout as usize)).map(|o| o.script_pubkey.clone());
+				if prev_spk.is_some() && prev_spk == wallet_spk {
+					continue;
+				}
+				ins.push(format!("{}", inp.previous_output));
+			}
+			ins.sort();
+			let key = format!("spends[{}]", ins.join(","));
+			let class = if k < mark.bc_pos[i] { "broadcasts-before" } else { "broadcasts" };
+			push(&mut s, format!("n{}.{}", i, class), key);
+		}
+	}
+	for (k, (_, e)) in sim.log.iter().enumerate() {
+		let post = k >= mark.log_pos;
+		match e {
+			SEvent::Ldk { node, ev } => {
+				let bump = matches!(ev, lightning::events::Event::BumpTransaction(_));
+				let class = match (bump, post) {
+					(true, true) => "bump-events",
+					(true, false) => "bump-events-before",
+					(false, true) => "events",
+					(false, false) => "events-before",
+				};
+				push(&mut s, format!("n{}.{}", node, class), normalize_rendered(&format!("{:?}", ev)));
+			},
+			SEvent::Deliver { from, to, wire } if post => {
+				let r = match wire {
+					Wire::Add(m) => Some(format!("add chan={} id={} amt={} hash={} cltv={}", m.channel_id, m.htlc_id, m.amount_msat, m.payment_hash, m.cltv_expiry)),
+					Wire::Fulfill(m) => Some(format!("fulfill chan={} id={} preimage={}", m.channel_id, m.htlc_id, m.payment_preimage)),
+					Wire::Fail(m) => Some(format!("fail chan={} id={}", m.channel_id, m.htlc_id)),
+					Wire::FailMalformed(m) => Some(format!("fail_malformed chan={} id={} code={}", m.channel_id, m.htlc_id, m.failure_code)),
+					Wire::Shutdown(m) => Some(format!("shutdown chan={}", m.channel_id)),
+					Wire::Error(m) => Some(format!("error chan={} {}", m.channel_id, m.data)),
+					_ => None,
+				};
+				if let Some(r) = r {
+					push(&mut s, format!("n{}->n{}.htlc-msgs", from, to), r);
+				}
+			},
+			_ => {},
+		}
+	}
+	for v in s.values_mut() {
+		v.sort();
+	}
+	s
+}
+
+fn multiset_minus(a: &[String], b: &[String]) -> Vec<String> {
+	let mut rest: Vec<String> = b.to_vec();
+	let mut out = vec![];
+	for x in a {
+		if let Some(p) = rest.iter().position(|y| y == x) {
+			rest.swap_remove(p);
+		} else {
+			out.push(x.clone());
+		}
+	}
+	out
+}
+
+/// First difference between the world that kept running (`a`) and the one that reloaded (`b`) under the
+/// rules stated at [`surface`]: (class, unexplained in a only, unexplained in b only)
+pub fn surface_diff(a: &Surface, b: &Surface) -> Option<(String, Vec<String>, Vec<String>)> {
+	let keys: std::collections::BTreeSet<&String> = a.keys().chain(b.keys()).collect();
+	let empty = vec![];
+	for k in keys {
+		if k.ends_with("-before") {
+			continue;
+		}
+		let va = a.get(k).unwrap_or(&empty);
+		let vb = b.get(k).unwrap_or(&empty);
+		if va == vb {
+			continue;
+		}
+		let before_a = a.get(&format!("{}-before", k)).unwrap_or(&empty);
+		let before_b = b.get(&format!("{}-before", k)).unwrap_or(&empty);
+		let (only_a, only_b) = if k.ends_with(".bump-events") || k.ends_with(".broadcasts") {
+			let oa: Vec<String> = va.iter().filter(|x| !vb.contains(x) && !before_a.contains(x)).cloned().collect();
+			let ob: Vec<String> = vb.iter().filter(|x| !va.contains(x) && !before_b.contains(x)).cloned().collect();
+			(oa, ob)
+		} else if k.ends_with(".events") {
+			let oa = multiset_minus(va, vb);
+			let ob: Vec<String> = multiset_minus(vb, va).into_iter().filter(|x| !before_b.contains(x)).collect();
+			(oa, ob)
+		} else {
+			(multiset_minus(va, vb), multiset_minus(vb, va))
+		};
+		if !only_a.is_empty() || !only_b.is_empty() {
+			return Some((k.clone(), only_a, only_b));
+		}
+	}
+	None
+}
+
+/// Remove from a rendered event what legitimately differs between two executions of the same history:
+/// * witness data: LDK signs with auxiliary randomness drawn from the node's entropy source
+///   (`sign_with_aux_rand`), and the reload consumes a different amount of entropy than the bounce, so
+///   signatures differ while the signed transactions (txids) are the same;
+/// * `hold_times`: wall-clock measurements (attribution data, 100 ms units).
+pub fn normalize_rendered(s: &str) -> String {
+	let mut out = String::with_capacity(s.len());
+	let mut rest = s;
+	loop {
+		let w = rest.find("witness: Witness: {");
+		let h = rest.find("hold_times: [");
+		let (pos, open, close, tag) = match (w, h) {
+			(None, None) => break,
+			(Some(w), Some(h)) if h < w => (h, '[', ']', "hold_times: [..]"),
+			(Some(w), _) => (w, '{', '}', "witness: <..>"),
+			(None, Some(h)) => (h, '[', ']', "hold_times: [..]"),
+		};
+		out.push_str(&rest[..pos]);
+		out.push_str(tag);
+		let after = &rest[pos..];
+		let start = after.find(open).unwrap();
+		let mut depth = 0i32;
+		let mut end = after.len();
+		for (i, ch) in after[start..].char_indices() {
+			if ch == open {
+				depth += 1;
+			} else if ch == close {
+				depth -= 1;
+				if depth == 0 {
+					end = start + i + 1;
+					break;
+				}
+			}
+		}
+		rest = &after[end..];
+	}
+	out.push_str(rest);
+	out
+}
+
+impl Sim {
+	/// Reload `node` from its ChannelManager's encoding taken now and the encodings, taken now, of its live
+	/// monitors (a pure write -> read of the node's persisted objects; no staleness). All its connections
+	/// drop, as after any restart.
+	pub fn c12_reload(&mut self, node: usize) -> Result<(), String> {
+		let mgr_bytes = self.w.nodes[node].node.encode();
+		let mut images = vec![];
+		let mut ids = vec![];
+		{
+			let nd = &self.w.nodes[node];
+			let mut chans = nd.chain_monitor.chain_monitor.list_monitors();
+			chans.sort();
+			for c in chans {
+				if let Ok(m) = nd.chain_monitor.chain_monitor.get_monitor(c) {
+					ids.push((c, m.get_latest_update_id()));
+					images.push(m.encode());
+				}
+			}
+		}
+		let peers: Vec<usize> = (0..self.w.n).filter(|j| *j != node && self.is_connected(node, *j)).collect();
+		for j in peers.iter().cloned() {
+			self.connected.remove(&if node < j { (node, j) } else { (j, node) });
+			for (f, t) in [(node, j), (j, node)] {
+				let q: Vec<Wire> = self.links.get_mut(&(f, t)).unwrap().drain(..).collect();
+				for wire in q {
+					self.rec(SEvent::Dropped { from: f, to: t, wire });
+				}
+			}
+			self.rec(SEvent::Disconnect { a: node, b: j });
+		}
+		let r = self.w.restart(node, &mgr_bytes, &images, &peers);
+		self.rec(SEvent::Restart { node, snapshot_step: 0, monitor_ids: ids, ok: r.is_ok(), detail: r.clone().err().unwrap_or_default() });
+		if r.is_err() {
+			return r;
+		}
+		self.snapshots[node].clear();
+		for j in 0..self.w.n {
+			self.drain(j);
+		}
+		Ok(())
+	}
+
+	/// What a running node's background processor does on its timer (and right after start-up): have the
+	/// monitors regenerate / rebroadcast their pending claims. `BumpTransaction` events are by design not
+	/// persisted ("replayed upon restarting"), so both twins get this call before they are compared.
+	pub fn c12_rebroadcast_all(&mut self) {
+		for i in 0..self.w.n {
+			self.w.nodes[i].chain_monitor.chain_monitor.rebroadcast_pending_claims();
+			self.drain(i);
+		}
+	}
+
+	/// The "equivalent of a reload" in the world whose node keeps running: everything the node's persister
+	/// was asked to write is completed (a reload from the written images implies that), persistence is
+	/// synchronous from now on (a fresh persister), and every connection of the node drops.
+	pub fn c12_bounce(&mut self, node: usize, spec: &WorldSpec) {
+		if spec.deferred {
+			let nd = &self.w.nodes[node];
+			let cnt = nd.chain_monitor.pending_operation_count();
+			nd.chain_monitor.chain_monitor.flush(cnt, &nd.logger);
+			self.drain(node);
+		}
+		self.complete_all_updates(node);
+		self.w.set_async(node, None, false);
+		let chans: Vec<ChannelId> = self.w.persisters[node].state.lock().unwrap().async_chans.iter().cloned().collect();
+		for c in chans {
+			self.w.set_async(node, Some(c), false);
+		}
+		for j in 0..self.w.n {
+			if j != node && self.is_connected(node, j) {
+				self.disconnect(node, j);
+			}
+		}
+	}
+}
